@@ -83,6 +83,7 @@ func init() {
 		// ghost hooks inside rosmar
 		"(*github.com/couchbaselabs/rosmar.Collection).postNewEvent": hookPostNewEvent,
 	}
+	registerBufModels()
 	ifaceModels = map[string]modelFn{
 		"(sync.Locker).Lock":   mutexLock,
 		"(sync.Locker).Unlock": mutexUnlock,
@@ -107,6 +108,11 @@ func (e *Engine) abstractHandle(st *State, t types.Type, name string) (Value, bo
 	switch {
 	case typeIsPkg(t, "database/sql", "Tx"):
 		return VAbs{Kind: "tx", ID: e.namedID("tx:" + name), Data: name}, true
+	case typeIsPkg(t, "database/sql", "Rows"):
+		if _, isPtr := t.(*types.Pointer); isPtr {
+			ro := &RowsObj{ID: e.namedID("rows:" + name)}
+			return VAbs{Kind: "rows", ID: ro.ID, Data: ro}, true
+		}
 	case typeIsPkg(t, "database/sql", "DB"):
 		return VAbs{Kind: "pool", ID: e.namedID("pool:" + name), Data: name}, true
 	case typeIsPkg(t, "sync", "Mutex"):
